@@ -425,8 +425,12 @@ def monitor(ck, sc, r, stats):
     for e in r["trace"]:
         if e["ev"] == "app_begin":
             t_begin[(e["inst"], e["k"])] = e["t"]
-        elif e["ev"] in ("app_commit_ok", "app_abort_ok", "app_failed"):
+        elif e["ev"] in ("app_commit_ok", "app_abort_ok"):
             open_iv[(e["inst"], e["k"])] = (t_begin.get((e["inst"], e["k"])), e["t"])
+        elif e["ev"] == "app_failed":
+            # the client did not end this transaction at the coordinator: requests already on the wire
+            # may still land after the application saw the error (atomicity is checked separately)
+            open_iv[(e["inst"], e["k"])] = (t_begin.get((e["inst"], e["k"])), float("inf"))
     rid_txn = {rid: (t["inst"], t["k"]) for t in r["txns"] for rid, _ in t["items"]}
     for p in range(sc["partitions"]):
         for a in r["logs"][str(p)]["arrivals"]:
@@ -746,17 +750,19 @@ def run(ck: Check):
            f"coq_fail={coq_fail} ({time.time() - t0:.0f}s)")
 
 
+# traces of the real producer that props/C07.v talks about: name -> (scenario, expected first broken
+# obligation (event index, obligation) or None when every obligation holds)
 WITNESSES = {
-    "w_abort_without_endtxn": ({"instances": [{"txns": [
-        {"tasks": [[{"p": 0}]], "offsets": {"at": "after", "items": [[0, 7]]}, "end": "commit", "await_sends": False},
-        {"tasks": [[{"p": 0}]], "offsets": None, "end": "commit", "await_sends": False}]}],
-        "faults": {"AddOffsetsToTxn:1": {"kind": "error", "code": 30}}}, (18, 4)),
-    "w_unregistered_produce": ({"instances": [{"txns": [
-        {"tasks": [[{"p": 1}]], "offsets": None, "end": "commit", "await_sends": False}]}],
-        "faults": {"AddPartitionsToTxn:1": {"kind": "error", "code": 29}}}, (12, 1)),
     "w_commit_without_batch": ({"instances": [{"txns": [
         {"tasks": [[{"p": 0}]], "offsets": None, "end": "commit", "await_sends": False}]}],
         "faults": {"Produce:1": {"kind": "error", "code": 29}}}, (12, 2)),
+    "t_abort_after_abortable_error": ({"instances": [{"txns": [
+        {"tasks": [[{"p": 0}]], "offsets": {"at": "after", "items": [[0, 7]]}, "end": "commit", "await_sends": False},
+        {"tasks": [[{"p": 0}]], "offsets": None, "end": "commit", "await_sends": False}]}],
+        "faults": {"AddOffsetsToTxn:1": {"kind": "error", "code": 30}}}, None),
+    "t_unauthorized_partition": ({"instances": [{"txns": [
+        {"tasks": [[{"p": 1}]], "offsets": None, "end": "commit", "await_sends": False}]}],
+        "faults": {"AddPartitionsToTxn:1": {"kind": "error", "code": 29}}}, None),
 }
 
 
@@ -774,7 +780,7 @@ def check_witnesses(ck):
     """The refutation witnesses of props/C07.v are traces of the real producer: re-record them."""
     base = {"brokers": 1, "partitions": 2, "marker_delay": 0.0, "linger_ms": 0, "max_batch_size": 16384,
             "request_timeout_ms": 2000, "retry_backoff_ms": 20, "txn_coord": 0, "group_coord": 0, "quiet": 2.0,
-            "moves": {}, "loading": {}, "kills": []}
+            "moves": {}, "loading": {}, "kills": [], "seed": 1}
     scs = []
     for k, (name, (sc, _)) in enumerate(WITNESSES.items()):
         scs.append(dict(base, id=900 + k, **json.loads(json.dumps(sc))))
@@ -790,7 +796,8 @@ def check_witnesses(ck):
             diff = next((i for i, (a, b) in enumerate(zip(coq or [], evs)) if a != b), min(len(coq or []), len(evs)))
             bad.append(f"{name}: the real producer's trace differs from the Coq witness at event {diff}: "
                        f"real {evs[diff:diff + 3]} vs coq {(coq or [])[diff:diff + 3]}")
-    ck.obligation("correspondence:refutation-witnesses-are-traces-of-the-real-producer", not bad, "; ".join(bad)[:1200])
+    ck.obligation("correspondence:traces-quoted-in-the-theorems-are-traces-of-the-real-producer", not bad,
+                  "; ".join(bad)[:1200])
     return scs, res
 
 
